@@ -76,13 +76,13 @@ def baseOf (p : Path) : Path :=
 /-- `filepath.Abs` with the working directory as a parameter. -/
 def absOf (cwd p : Path) : Path := if isAbs p then clean p else join2 cwd p
 
-/-- The elements `filepath.Rel` iterates over, for a cleaned path (`.` counts as empty). -/
+/-- The elements `filepath.Rel` iterates over, for a cleaned path (the leading separator is skipped;
+    `Rel` replaces a base of `.` by the empty string before, but not the target). -/
 def relElems (c : Path) : List Path :=
-  if c = dot then []
-  else match c with
-    | [] => []
-    | 47 :: rest => if rest = [] then [] else splitSep rest
-    | _ => splitSep c
+  match c with
+  | [] => []
+  | 47 :: rest => if rest = [] then [] else splitSep rest
+  | _ => splitSep c
 
 def stripCommon : List Path → List Path → List Path × List Path
   | b :: bs, t :: ts => if b = t then stripCommon bs ts else (b :: bs, t :: ts)
